@@ -67,7 +67,7 @@ U, X = ("u", (2,)), ("x", (2,))
 # Gaussian integers with an integer modulus: |z| and |z w| stay in the rational fragment
 PYTH = [(3, 4), (4, 3), (6, 8), (8, 6), (5, 12), (12, 5), (8, 15), (15, 8)]
 
-JAVA = "-DTLA-Library=/verif/spec -Xmx3g -Xmn256m -XX:ParallelGCThreads=2"
+JAVA = "-DTLA-Library=" + os.path.join(os.path.dirname(os.path.dirname(os.path.dirname(os.path.abspath(__file__)))), "spec") + " -Xmx3g -Xmn256m -XX:ParallelGCThreads=2"
 TLC_WORKERS = 2      # per TLC process; at most two processes at a time (<= 4 workers in total)
 HANG_LIMIT = 0.4     # seconds after which float(exponent) is declared non-terminating
 PASS_LIMIT = 10.0
